@@ -86,9 +86,9 @@ mutual
 /-- same value (or the same failure) and same first reads as Python, any nesting, any environment -/
 theorem eval_lib_py (S : Sem) (ρ : Env) (e : E) :
     (evalLib S ρ false e).val = (evalPy S ρ e).val ∧
-    firstReads (evalLib S ρ false e).reads = firstReads (evalPy S ρ e).reads := by
+    firstReads (evalLib S ρ false e).reads = (evalPy S ρ e).reads := by
   cases e with
-  | name n => simp [evalLib, evalPy]
+  | name n => simp [evalLib, evalPy, firstReads]
   | const v => simp [evalLib, evalPy]
   | not a => have := eval_lib_py S ρ a; simp [evalLib, evalPy, this]
   | and a b =>
@@ -125,7 +125,7 @@ theorem eval_lib_py (S : Sem) (ρ : Env) (e : E) :
       exact ⟨hc.1, by simp [firstReads_append, hf.2, hc.2]⟩
 theorem chain_lib_py (S : Sem) (ρ : Env) (c : Chain) (lv : V) :
     (chainLib S ρ false lv c).val = (chainPy S ρ lv c).val ∧
-    firstReads (chainLib S ρ false lv c).reads = firstReads (chainPy S ρ lv c).reads := by
+    firstReads (chainLib S ρ false lv c).reads = (chainPy S ρ lv c).reads := by
   cases c with
   | last op r =>
     have h := eval_lib_py S ρ r
